@@ -453,7 +453,7 @@ def replay(rec):
     for closure in ("MOST", "MOSTM", "CONSTANT", "OAAHOC"):
         for mol in (-30.0, 25.0, 4.0, m.get("mol", 80.0)):
             for n in (3, 7):
-                zm, wind, ustar = float(abs(m.get("zm", 8.0)) or 8.0), (2.0, -1.3), 0.4
+                zm, wind, ustar = 8.0, (2.0, -1.3), 0.4
                 kw = dict(ustar=ustar, mol=mol, closure=closure, prsc=0.8)
                 if closure == "OAAHOC":
                     kw["tke"] = 0.7
@@ -463,6 +463,9 @@ def replay(rec):
                     bad.append([closure, mol, "raised", str(e)[:80]])
                     continue
                 z, u, v, Kz = np.ravel(z), np.ravel(u), np.ravel(v), np.ravel(Kz)
+                if len(z) <= n:
+                    bad.append([closure, mol, n, "grid shorter than n+1"])
+                    continue
                 ok = np.isfinite(z)
                 if abs(z[n] - zm) > 1e-9 * zm or np.any(np.diff(z[ok]) <= 0) or abs(u[n] - wind[0]) > 1e-9 or abs(v[n] - wind[1]) > 1e-9:
                     bad.append([closure, mol, n, "grid/wind", float(z[n]), float(u[n]), float(v[n])])
